@@ -250,7 +250,7 @@ Section HostRel.
   Lemma WR_host_action : forall e a w w0, WR w w0 -> WR w (host_action e a w0).
   Proof.
     unfold host_action. intros. destruct a; auto; try (apply WR_with_pending; auto; hr_auto).
-    hr_auto.
+    all: hr_auto.
   Qed.
   Hint Resolve WR_host_action : hr.
 
